@@ -6015,9 +6015,14 @@ impl BytecodeVM {
                     );
                 }
 
-                // Handle __proto__ special property - return prototype
+                // Handle __proto__ special property - return prototype (an own property of
+                // that name, as JSON.parse or defineProperty create it, shadows the accessor)
                 if let JsValue::String(k) = key
                     && k.as_str() == "__proto__"
+                    && !obj_ref
+                        .borrow()
+                        .properties
+                        .contains_key(&PropertyKey::String(k.cheap_clone()))
                 {
                     return Ok(Guarded::unguarded(
                         obj_ref
@@ -6132,9 +6137,14 @@ impl BytecodeVM {
                     return Ok(());
                 }
 
-                // Handle __proto__ special property - set prototype
+                // Handle __proto__ special property - set prototype (unless an own property of
+                // that name shadows the accessor)
                 if let JsValue::String(k) = key
                     && k.as_str() == "__proto__"
+                    && !obj_ref
+                        .borrow()
+                        .properties
+                        .contains_key(&PropertyKey::String(k.cheap_clone()))
                 {
                     match &value {
                         JsValue::Object(proto) => {
